@@ -565,8 +565,9 @@ theorem RegInv.valid_of_wd {k : K} (a : Nat) (h : (k.arF a).wd = true) : a < k.a
 
 /-- a frame update of actor `a` on a valid index, stated on the view -/
 theorem RegInv.flags {k : K} (h : RegInv k) (a : Nat) (f : Actor → Actor)
-    (hw : ∀ x, (f x).waiting = x.waiting) (ht : ∀ x, (f x).tcb = x.tcb) (hkt : ∀ x, (f x).ktimer = x.ktimer)
-    (hwd : ∀ x, (f x).wannadie = x.wannadie) (han : ∀ x, (f x).anyList = x.anyList)
+    (hw : (f (k.actor a)).waiting = (k.actor a).waiting) (ht : (f (k.actor a)).tcb = (k.actor a).tcb)
+    (hkt : (f (k.actor a)).ktimer = (k.actor a).ktimer)
+    (hwd : (f (k.actor a)).wannadie = (k.actor a).wannadie) (han : (f (k.actor a)).anyList = (k.actor a).anyList)
     (hsl : ∀ i ∈ (f (k.actor a)).ar.slotIdx, i < k.impls.length)
     (hpi : ∀ i ∈ (f (k.actor a)).ar.pidx, i < k.impls.length)
     (hrk : (f (k.actor a)).ar.rank = true → 0 < k.impls.length)
@@ -576,11 +577,11 @@ theorem RegInv.flags {k : K} (h : RegInv k) (a : Nat) (f : Actor → Actor)
   by_cases ha : a < k.actors.length
   · refine RegInv.mk' _ (RegInvF.flags h a (f (k.actor a)).ar ?_ ?_ ?_ ?_ ?_ hsl hpi hrk ?_) rfl
       (arF_setActor k a f ha) rfl rfl rfl
-    · exact hw _
-    · exact ht _
-    · exact hkt _
-    · exact hwd _
-    · exact han _
+    · exact hw
+    · exact ht
+    · exact hkt
+    · exact hwd
+    · exact han
     · exact hclean
   · rw [setActor_of_ge _ _ _ (by omega)]; exact h
 
@@ -603,7 +604,7 @@ theorem uf3_reg (k : K) (i a : Nat) (h : RegInv k) (hnt : NT k.timers a) (hi : i
     obtain ⟨h1, h2, h3⟩ := foldl_unregister_reg (k.actor a).anyList a k h hnt
     have h4 : RegInv ((List.foldl (fun k j => k.unregister j a) k (k.actor a).anyList).setActor a
         fun x => { x with res := Res.rank (rankOf (k.actor a).anyList i) }) := by
-      refine RegInv.flags h1 a _ (fun _ => rfl) (fun _ => rfl) (fun _ => rfl) (fun _ => rfl) (fun _ => rfl)
+      refine RegInv.flags h1 a _ rfl rfl rfl rfl rfl
         ?_ ?_ ?_ ?_
       · exact h1.slots a
       · exact h1.pidx a
@@ -698,7 +699,7 @@ theorem answer_reg (k : K) (a : Nat) (h : RegInv k)
   unfold K.answer
   split
   · refine RegInv.same ?_ (rsame_of _ _ rfl rfl rfl rfl)
-    refine RegInv.flags h a _ (fun _ => rfl) (fun _ => rfl) (fun _ => rfl) (fun _ => rfl) (fun _ => rfl)
+    refine RegInv.flags h a _ rfl rfl rfl rfl rfl
       (h.slots a) (h.pidx a) (h.rank a) (fun hw _ => hclean hw)
   · exact h.same (rsame_of _ _ rfl rfl rfl rfl)
 
@@ -715,7 +716,7 @@ theorem finishOne_reg (k : K) (i a : Nat) (rest : List Nat) (h : RegInv k) (hs :
     · have e1 : RegInv ((k.ufAll i a).setImpl i fun x => { x with owners := x.owners.erase a }) :=
         h1.same (rsame_setImpl _ _ _ (by intro _; rfl))
       split
-      · refine RegInv.flags e1 a _ (fun _ => rfl) (fun _ => rfl) (fun _ => rfl) (fun _ => rfl) (fun _ => rfl)
+      · refine RegInv.flags e1 a _ rfl rfl rfl rfl rfl
           (e1.slots a) (e1.pidx a) (by intro hr; simp [Actor.ar] at hr) (fun hw hid => e1.idle a hw hid)
       · exact e1
     · intro _
@@ -752,5 +753,719 @@ theorem finish_reg (k : K) (i : Nat) (h : RegInv k) : RegInv (k.finish i) := by
   simp only [K.setImpl]
   rw [map_upd_inv]
   intro _; rfl
+
+/-! ### dying actors -/
+
+/-- any update of a dying actor that keeps its timer ids -/
+theorem RegInvF.wd {sim : Nat → List Nat} {ar : Nat → AR} {T : List Timer} {n m : Nat}
+    (h : RegInvF sim ar T n m) (a : Nat) (x : AR) (hwd : x.wd = true) (ht : x.tcb = (ar a).tcb)
+    (hkt : x.ktimer = (ar a).ktimer)
+    (hsl : ∀ i ∈ x.slotIdx, i < m) (hpi : ∀ i ∈ x.pidx, i < m) (hrk : x.rank = true → 0 < m) :
+    RegInvF sim (updF ar a x) T n m := by
+  refine h.upd a x sim ?_ ?_ ?_ ?_ ?_ ?_ hsl hpi hrk
+  · intro b j hb
+    by_cases hba : b = a
+    · subst hba; simp only [updF_same] at hb; rw [hwd] at hb; cases hb
+    · rw [updF_ne _ _ _ _ hba] at hb ⊢; exact h.cnt b j hb
+  · intro h1; rw [hwd] at h1; cases h1
+  · intro h1; rw [hwd] at h1; cases h1
+  · intro t ht' hc
+    have := h.tlink t ht'
+    unfold TLinkF at this ⊢
+    cases hcb : t.cb with
+    | kill b => trivial
+    | wto b i =>
+      rw [hcb] at hc; injection hc with hc; subst hc
+      simp only [hcb] at this
+      simp only [updF_same, ht, hwd]; exact ⟨this.1, fun hh => by cases hh⟩
+    | wany b is =>
+      rw [hcb] at hc; injection hc with hc; subst hc
+      simp only [hcb] at this
+      simp only [updF_same, ht, hwd]; exact ⟨this.1, fun hh => by cases hh⟩
+  · intro id hid; rw [ht] at hid; exact h.rev a id hid
+  · intro id hid; rw [hkt] at hid; exact h.klink a id hid
+
+theorem RegInv.setWd {k : K} (h : RegInv k) (a : Nat) (f : Actor → Actor)
+    (hwd : (f (k.actor a)).wannadie = true) (ht : (f (k.actor a)).tcb = (k.actor a).tcb)
+    (hkt : (f (k.actor a)).ktimer = (k.actor a).ktimer)
+    (hsl : ∀ i ∈ (f (k.actor a)).ar.slotIdx, i < k.impls.length)
+    (hpi : ∀ i ∈ (f (k.actor a)).ar.pidx, i < k.impls.length)
+    (hrk : (f (k.actor a)).ar.rank = true → 0 < k.impls.length) :
+    RegInv (k.setActor a f) := by
+  by_cases ha : a < k.actors.length
+  · exact RegInv.mk' _ (RegInvF.wd h a (f (k.actor a)).ar hwd ht hkt hsl hpi hrk) rfl
+      (arF_setActor k a f ha) rfl rfl rfl
+  · rw [setActor_of_ge _ _ _ (by omega)]; exact h
+
+theorem exitLoop_reg (k : K) (a n : Nat) (h : RegInv k) (hwd : (k.actor a).wannadie = true) :
+    RegInv (k.exitLoop a n) := by
+  induction n generalizing k with
+  | zero => exact h
+  | succ n ih =>
+    unfold K.exitLoop
+    split
+    · exact h
+    · rename_i i _ _
+      simp only []
+      have h1 : RegInv (k.setActor a fun x => { x with waiting := x.waiting.dropLast }) :=
+        RegInv.setWd h a _ hwd rfl rfl (h.slots a) (h.pidx a) (h.rank a)
+      have h2 := (h1.same (rsame_cancel _ i)).same
+        (rsame_setImpl _ i (fun x => { x with st := IState.failed }) (by intro _; rfl))
+      have h3 := finish_reg _ i h2
+      refine ih _ h3 ?_
+      have s : Shr k ((((k.setActor a fun x => { x with waiting := x.waiting.dropLast }).cancel i).setImpl i
+          fun x => { x with st := IState.failed }).finish i) :=
+        (((shr_setActor k a _ (by fr_side)).trans (shr_cancel _ i)).trans
+          (shr_setImpl _ i _ (by intro _; rfl))).trans (shr_finish _ i)
+      exact s.wd a hwd
+
+theorem exit_reg (k : K) (a : Nat) (h : RegInv k) : RegInv (k.exit a) := by
+  unfold K.exit
+  simp only []
+  refine RegInv.same ?_ (rsame_foldl_cancel _ _)
+  by_cases ha : a < k.actors.length
+  · apply exitLoop_reg
+    · exact RegInv.setWd h a _ rfl rfl rfl (h.slots a) (h.pidx a) (by intro hr; simp [Actor.ar] at hr)
+    · rw [actor_setActor_same _ _ _ ha]
+  · rw [setActor_of_ge _ _ _ (by omega)]
+    have hd := actor_of_ge k a (by omega)
+    have : (k.actor a).waiting.length = 0 := by rw [hd]; rfl
+    rw [this]
+    exact h
+
+theorem kill_reg (k : K) (a : Nat) (h : RegInv k) : RegInv (k.kill a) := by
+  unfold K.kill; split
+  · exact h
+  · exact (exit_reg k a h).same (rsame_addToRun _ a)
+
+/-- removing timers that are nobody's timeout timer (kill timers) -/
+theorem RegInvF.subTimers {sim : Nat → List Nat} {ar : Nat → AR} {T : List Timer} {n m : Nat}
+    (h : RegInvF sim ar T n m) (T' : List Timer) (hsub : T'.Sublist T)
+    (hkeep : ∀ t ∈ T, cbActor t.cb ≠ none → t ∈ T') : RegInvF sim ar T' n m := by
+  refine ⟨h.cnt, h.idle, h.shape, fun t ht => h.tid t (hsub.subset ht), (hsub.map _).nodup h.tnd,
+    fun t ht => h.tlink t (hsub.subset ht), ?_, ?_, h.slots, h.pidx, h.rank⟩
+  · intro a id hid
+    obtain ⟨t, ht, h1, h2⟩ := h.rev a id hid
+    exact ⟨t, hkeep t ht (by rw [h2]; simp), h1, h2⟩
+  · intro a id hid
+    exact ⟨(h.klink a id hid).1, fun t ht => (h.klink a id hid).2 t (hsub.subset ht)⟩
+
+theorem dieK_reg (k : K) (a : Nat) (h : RegInv k) : RegInv (k.dieK a) := by
+  unfold K.dieK
+  split
+  · rename_i id hid
+    have hk := h.klink a id (by show (k.actor a).ar.ktimer = some id; exact hid)
+    have h1 : RegInv (k.timerRemove id) := by
+      refine RegInv.mk' _ (RegInvF.subTimers h (k.timers.filter (fun t => t.id != id)) List.filter_sublist ?_)
+        rfl rfl rfl rfl rfl
+      intro t ht hc
+      refine List.mem_filter.mpr ⟨ht, ?_⟩
+      simp only [bne_iff_ne, ne_eq]
+      intro e
+      exact hc (hk.2 t ht e)
+    by_cases ha : a < k.actors.length
+    · refine RegInv.mk' _ (RegInvF.upd h1 a ({ (k.actor a) with ktimer := none } : Actor).ar (k.timerRemove id).simF
+        ?_ ?_ ?_ ?_ ?_ ?_ (h1.slots a) (h1.pidx a) (h1.rank a)) rfl
+        (by rw [arF_setActor _ _ _ (by simpa [K.timerRemove] using ha)]; rfl) rfl rfl rfl
+      · intro b j hb
+        by_cases hba : b = a
+        · subst hba; simp only [updF_same] at hb ⊢; exact h1.cnt b j hb
+        · rw [updF_ne _ _ _ _ hba] at hb ⊢; exact h1.cnt b j hb
+      · exact h1.idle a
+      · exact h1.shape a
+      · intro t ht hc
+        have := h1.tlink t ht
+        unfold TLinkF at this ⊢
+        cases hcb : t.cb with
+        | kill b => trivial
+        | wto b i =>
+          rw [hcb] at hc; injection hc with hc; subst hc
+          simp only [hcb] at this
+          simp only [updF_same]; exact this
+        | wany b is =>
+          rw [hcb] at hc; injection hc with hc; subst hc
+          simp only [hcb] at this
+          simp only [updF_same]; exact this
+      · exact h1.rev a
+      · intro id' hid'; cases hid'
+    · rw [setActor_of_ge _ _ _ (by simpa [K.timerRemove] using (show k.actors.length ≤ a by omega))]; exact h1
+  · exact h
+
+theorem dieT_reg (k : K) (a : Nat) (h : RegInv k) : RegInv (k.dieT a) := by
+  unfold K.dieT
+  split
+  · rename_i id hid
+    obtain ⟨hnt, hkeep⟩ := RegInvF.filter_tcb h a id (by show (k.actor a).ar.tcb = some id; exact hid)
+    have ha : a < k.actors.length := by
+      by_cases hlt : a < k.actors.length
+      · exact hlt
+      · rw [actor_of_ge k a (by omega)] at hid; cases hid
+    refine RegInv.mk' _ (RegInvF.dropTimers h a ({ (k.actor a) with tcb := none } : Actor).ar k.simF
+      (k.timers.filter (fun t => t.id != id)) List.filter_sublist hnt hkeep ?_ ?_ ?_ rfl (h.klink a) (h.slots a)
+      (h.pidx a) (h.rank a)) rfl
+      (by rw [arF_setActor _ _ _ (by simpa [K.timerRemove] using ha)]; rfl) rfl rfl rfl
+    · intro b j hb
+      by_cases hba : b = a
+      · subst hba; simp only [updF_same] at hb ⊢; exact h.cnt b j hb
+      · rw [updF_ne _ _ _ _ hba] at hb ⊢; exact h.cnt b j hb
+    · intro hw hid'; exact (h.idle a hw hid').1
+    · exact h.shape a
+  · exact h
+
+theorem die_reg (k : K) (a : Nat) (failed : Bool) (h : RegInv k) : RegInv (k.die a failed).1 := by
+  rw [die_eq]
+  have h1 := dieT_reg _ a (dieK_reg _ a (h.same (rsame_foldl_cancel (k.ownedBy a) k)))
+  refine RegInv.setWd h1 a _ rfl rfl rfl (h1.slots a) (by intro i hi; simp [Actor.ar] at hi)
+    (h1.rank a)
+
+/-! ### the creation sites (`K.handle`) -/
+
+theorem RegInvF.grow {sim : Nat → List Nat} {ar : Nat → AR} {T : List Timer} {n m m' : Nat}
+    (h : RegInvF sim ar T n m) (hm : m ≤ m') : RegInvF sim ar T n m' :=
+  ⟨h.cnt, h.idle, h.shape, h.tid, h.tnd, h.tlink, h.rev, h.klink,
+   fun a i hi => Nat.lt_of_lt_of_le (h.slots a i hi) hm, fun a i hi => Nat.lt_of_lt_of_le (h.pidx a i hi) hm,
+   fun a hr => Nat.lt_of_lt_of_le (h.rank a hr) hm⟩
+
+theorem simF_newImpl (k : K) (im : Impl) (h : im.simcalls = []) : (k.newImpl im).1.simF = k.simF := by
+  funext j
+  unfold K.simF K.impl K.newImpl
+  simp only [List.getD_eq_getElem?_getD]
+  by_cases hj : j < k.impls.length
+  · rw [List.getElem?_append_left hj]
+  · rw [List.getElem?_append_right (by omega)]
+    rw [List.getElem?_eq_none (by omega : k.impls.length ≤ j)]
+    by_cases hj0 : j - k.impls.length = 0
+    · rw [hj0]; simp [h]
+    · have : [im][j - k.impls.length]? = none := by
+        apply List.getElem?_eq_none; simp; omega
+      rw [this]
+
+theorem newImpl_reg (k : K) (im : Impl) (h : RegInv k) (hs : im.simcalls = []) : RegInv (k.newImpl im).1 :=
+  RegInv.mk' _ (RegInvF.grow h (Nat.le_succ _)) (simF_newImpl k im hs) rfl rfl rfl (by simp [K.newImpl])
+
+/-- `register_simcall(i, a)` for a blocked actor without timeout timer -/
+theorem RegInvF.register {sim : Nat → List Nat} {ar : Nat → AR} {T : List Timer} {n m : Nat}
+    (h : RegInvF sim ar T n m) (i a : Nat) (hidle : (ar a).idle = false)
+    (htl : ∀ t ∈ T, cbActor t.cb = some a → TLinkF (updF ar a { ar a with waiting := (ar a).waiting ++ [i] }) t)
+    (hsh : ({ ar a with waiting := (ar a).waiting ++ [i] } : AR).shape) :
+    RegInvF (updF sim i (sim i ++ [a])) (updF ar a { ar a with waiting := (ar a).waiting ++ [i] }) T n m := by
+  refine h.upd a _ _ ?_ ?_ ?_ ?_ ?_ (h.klink a) (h.slots a) (h.pidx a) (h.rank a)
+  · intro b j hwd
+    by_cases hb : b = a
+    · subst hb
+      simp only [updF_same] at hwd ⊢
+      by_cases hj : j = i
+      · subst hj; simp only [updF_same]
+        rw [List.count_append, List.count_append, h.cnt b j hwd]; simp
+      · rw [updF_ne _ _ _ _ hj, List.count_append, h.cnt b j hwd]
+        have : (i == j) = false := by simpa using (Ne.symm hj)
+        simp [List.count_singleton, this]
+    · rw [updF_ne _ _ _ _ hb] at hwd ⊢
+      by_cases hj : j = i
+      · subst hj; simp only [updF_same]
+        rw [List.count_append, h.cnt b j hwd]
+        have : (a == b) = false := by simpa using (Ne.symm hb)
+        simp [List.count_singleton, this]
+      · rw [updF_ne _ _ _ _ hj]; exact h.cnt b j hwd
+  · intro _ hid; simp only at hid; rw [hidle] at hid; cases hid
+  · intro _; exact hsh
+  · exact htl
+  · intro id hid; exact h.rev a id hid
+
+theorem register_reg (k : K) (i a : Nat) (h : RegInv k) (hi : i < k.impls.length) (ha : a < k.actors.length)
+    (hidle : (k.actor a).idle = false)
+    (htl : ∀ t ∈ k.timers, cbActor t.cb = some a →
+      TLinkF (updF k.arF a { k.arF a with waiting := (k.arF a).waiting ++ [i] }) t)
+    (hsh : ({ k.arF a with waiting := (k.arF a).waiting ++ [i] } : AR).shape) : RegInv (k.register i a) := by
+  refine RegInv.mk' _ (RegInvF.register h i a (by show (k.actor a).ar.idle = false; exact hidle) htl hsh)
+    ?_ ?_ rfl rfl (by simp [K.register])
+  · show (k.setImpl i _).simF = _
+    rw [simF_setImpl _ _ _ hi]; rfl
+  · unfold K.register
+    rw [arF_setActor _ _ _ (by simpa using ha)]; rfl
+
+/-- `Timer::set` of a timeout timer for the blocked actor `a` -/
+theorem RegInvF.addTimer {sim : Nat → List Nat} {ar : Nat → AR} {T : List Timer} {n m : Nat}
+    (h : RegInvF sim ar T n m) (a : Nat) (date : Rat) (cb : Cb) (hcb : cbActor cb = some a)
+    (htcb : (ar a).tcb = none) (hidle : (ar a).idle = false)
+    (hlink : TLinkF (updF ar a { ar a with tcb := some n }) { id := n, date := date, cb := cb }) :
+    RegInvF sim (updF ar a { ar a with tcb := some n }) (T ++ [{ id := n, date := date, cb := cb }]) (n+1) m := by
+  have hnt := NT_of_tcb_none h a htcb
+  refine ⟨?_, ?_, ?_, ?_, ?_, ?_, ?_, ?_, ?_, ?_, ?_⟩
+  · intro b j hb
+    by_cases hba : b = a
+    · subst hba; simp only [updF_same] at hb ⊢; exact h.cnt b j hb
+    · rw [updF_ne _ _ _ _ hba] at hb ⊢; exact h.cnt b j hb
+  · intro b; by_cases hba : b = a
+    · subst hba; simp only [updF_same]; intro _ hid; rw [hidle] at hid; cases hid
+    · rw [updF_ne _ _ _ _ hba]; exact h.idle b
+  · intro b; by_cases hba : b = a
+    · subst hba; simp only [updF_same]; exact h.shape b
+    · rw [updF_ne _ _ _ _ hba]; exact h.shape b
+  · intro t ht
+    rcases List.mem_append.mp ht with ht | ht
+    · exact Nat.lt_succ_of_lt (h.tid t ht)
+    · simp only [List.mem_singleton] at ht; subst ht; exact Nat.lt_succ_self _
+  · rw [List.map_append, List.nodup_append]
+    refine ⟨h.tnd, by simp, ?_⟩
+    intro x hx y hy
+    simp only [List.map_cons, List.map_nil, List.mem_singleton] at hy
+    obtain ⟨t, ht, rfl⟩ := List.mem_map.mp hx
+    have := h.tid t ht
+    omega
+  · intro t ht
+    rcases List.mem_append.mp ht with ht | ht
+    · exact (tlinkF_updF_ne ar a _ t (hnt t ht)).mpr (h.tlink t ht)
+    · simp only [List.mem_singleton] at ht; subst ht; exact hlink
+  · intro b; by_cases hba : b = a
+    · subst hba; simp only [updF_same]
+      intro id hid; injection hid with hid; subst hid
+      exact ⟨{ id := n, date := date, cb := cb }, by simp, rfl, hcb⟩
+    · rw [updF_ne _ _ _ _ hba]
+      intro id hid
+      obtain ⟨t, ht, h1, h2⟩ := h.rev b id hid
+      exact ⟨t, by simp [ht], h1, h2⟩
+  · intro b id hid
+    have hk : (ar b).ktimer = some id := by
+      by_cases hba : b = a
+      · subst hba; simpa using hid
+      · rw [updF_ne _ _ _ _ hba] at hid; exact hid
+    obtain ⟨h1, h2⟩ := h.klink b id hk
+    refine ⟨Nat.lt_succ_of_lt h1, ?_⟩
+    intro t ht he
+    rcases List.mem_append.mp ht with ht | ht
+    · exact h2 t ht he
+    · simp only [List.mem_singleton] at ht; subst ht; simp only at he; omega
+  · intro b; by_cases hba : b = a
+    · subst hba; simp only [updF_same]; exact h.slots b
+    · rw [updF_ne _ _ _ _ hba]; exact h.slots b
+  · intro b; by_cases hba : b = a
+    · subst hba; simp only [updF_same]; exact h.pidx b
+    · rw [updF_ne _ _ _ _ hba]; exact h.pidx b
+  · intro b; by_cases hba : b = a
+    · subst hba; simp only [updF_same]; exact h.rank b
+    · rw [updF_ne _ _ _ _ hba]; exact h.rank b
+
+/-- `Timer::set` of a kill timer -/
+theorem RegInvF.addKill {sim : Nat → List Nat} {ar : Nat → AR} {T : List Timer} {n m : Nat}
+    (h : RegInvF sim ar T n m) (a b0 : Nat) (date : Rat) :
+    RegInvF sim (updF ar a { ar a with ktimer := some n }) (T ++ [{ id := n, date := date, cb := .kill b0 }]) (n+1) m := by
+  refine ⟨?_, ?_, ?_, ?_, ?_, ?_, ?_, ?_, ?_, ?_, ?_⟩
+  · intro b j hb
+    by_cases hba : b = a
+    · subst hba; simp only [updF_same] at hb ⊢; exact h.cnt b j hb
+    · rw [updF_ne _ _ _ _ hba] at hb ⊢; exact h.cnt b j hb
+  · intro b; by_cases hba : b = a
+    · subst hba; simp only [updF_same]; exact h.idle b
+    · rw [updF_ne _ _ _ _ hba]; exact h.idle b
+  · intro b; by_cases hba : b = a
+    · subst hba; simp only [updF_same]; exact h.shape b
+    · rw [updF_ne _ _ _ _ hba]; exact h.shape b
+  · intro t ht
+    rcases List.mem_append.mp ht with ht | ht
+    · exact Nat.lt_succ_of_lt (h.tid t ht)
+    · simp only [List.mem_singleton] at ht; subst ht; exact Nat.lt_succ_self _
+  · rw [List.map_append, List.nodup_append]
+    refine ⟨h.tnd, by simp, ?_⟩
+    intro x hx y hy
+    simp only [List.map_cons, List.map_nil, List.mem_singleton] at hy
+    obtain ⟨t, ht, rfl⟩ := List.mem_map.mp hx
+    have := h.tid t ht
+    omega
+  · intro t ht
+    rcases List.mem_append.mp ht with ht | ht
+    · have := h.tlink t ht
+      unfold TLinkF at this ⊢
+      cases hcb : t.cb with
+      | kill b => trivial
+      | wto b i =>
+        simp only [hcb] at this
+        by_cases hba : b = a
+        · subst hba; simp only [updF_same]; exact this
+        · simp only [updF_ne _ _ _ _ hba]; exact this
+      | wany b is =>
+        simp only [hcb] at this
+        by_cases hba : b = a
+        · subst hba; simp only [updF_same]; exact this
+        · simp only [updF_ne _ _ _ _ hba]; exact this
+    · simp only [List.mem_singleton] at ht; subst ht; trivial
+  · intro b id hid
+    have hk : (ar b).tcb = some id := by
+      by_cases hba : b = a
+      · subst hba; simpa using hid
+      · rw [updF_ne _ _ _ _ hba] at hid; exact hid
+    obtain ⟨t, ht, h1, h2⟩ := h.rev b id hk
+    exact ⟨t, by simp [ht], h1, h2⟩
+  · intro b; by_cases hba : b = a
+    · subst hba; simp only [updF_same]
+      intro id hid; injection hid with hid; subst hid
+      refine ⟨Nat.lt_succ_self _, ?_⟩
+      intro t ht he
+      rcases List.mem_append.mp ht with ht | ht
+      · have := h.tid t ht; omega
+      · simp only [List.mem_singleton] at ht; subst ht; rfl
+    · rw [updF_ne _ _ _ _ hba]
+      intro id hid
+      obtain ⟨h1, h2⟩ := h.klink b id hid
+      refine ⟨Nat.lt_succ_of_lt h1, ?_⟩
+      intro t ht he
+      rcases List.mem_append.mp ht with ht | ht
+      · exact h2 t ht he
+      · simp only [List.mem_singleton] at ht; subst ht; rfl
+  · intro b; by_cases hba : b = a
+    · subst hba; simp only [updF_same]; exact h.slots b
+    · rw [updF_ne _ _ _ _ hba]; exact h.slots b
+  · intro b; by_cases hba : b = a
+    · subst hba; simp only [updF_same]; exact h.pidx b
+    · rw [updF_ne _ _ _ _ hba]; exact h.pidx b
+  · intro b; by_cases hba : b = a
+    · subst hba; simp only [updF_same]; exact h.rank b
+    · rw [updF_ne _ _ _ _ hba]; exact h.rank b
+
+/-- what maestro knows about the issuer when it handles its simcall -/
+structure HPre (k : K) (a : Nat) : Prop where
+  va : a < k.actors.length
+  blocked : (k.actor a).blocked = true
+  pend : (k.actor a).pending = none
+  wd : (k.actor a).wannadie = false
+  wait : (k.actor a).waiting = []
+  tcb : (k.actor a).tcb = none
+
+theorem HPre.idle {k : K} {a : Nat} (hp : HPre k a) : (k.actor a).idle = false := by
+  simp [Actor.idle, hp.blocked, hp.pend]
+
+theorem HPre.nt {k : K} {a : Nat} (hp : HPre k a) (h : RegInv k) : NT k.timers a :=
+  NT_of_tcb_none h a (by show (k.actor a).ar.tcb = none; exact hp.tcb)
+
+theorem tcb_none_of_sub {k k' : K} (a : Nat) (h : RegInv k) (h' : RegInv k') (s : k'.timers.Sublist k.timers)
+    (ht : (k.actor a).tcb = none) : (k'.actor a).tcb = none := by
+  cases hc : (k'.actor a).tcb with
+  | none => rfl
+  | some id =>
+    exfalso
+    obtain ⟨t, ht', _, h2⟩ := h'.rev a id (by show (k'.actor a).ar.tcb = some id; exact hc)
+    exact NT_of_tcb_none h a (by show (k.actor a).ar.tcb = none; exact ht) t (s.subset ht') h2
+
+/-- the issuer is still clean after a function of the `Shr` family -/
+theorem HPre.shr {k k' : K} {a : Nat} (hp : HPre k a) (h : RegInv k) (h' : RegInv k') (s : Shr k k') :
+    (k'.actor a).waiting = [] ∧ (k'.actor a).tcb = none :=
+  ⟨s.wait a hp.wait, tcb_none_of_sub a h h' s.timers hp.tcb⟩
+
+theorem mem_setSlot (x : Actor) (s j : Nat) (st : SState) (i : Nat)
+    (hi : i ∈ (x.setSlot s j st).ar.slotIdx) : i = j ∨ i ∈ x.ar.slotIdx := by
+  simp only [Actor.ar, Actor.setSlot, List.map_cons, List.mem_cons, List.mem_map, List.mem_filter] at hi ⊢
+  rcases hi with hi | ⟨e, ⟨he, _⟩, rfl⟩
+  · exact Or.inl hi
+  · exact Or.inr ⟨e, he, rfl⟩
+
+theorem setSlot_reg (k : K) (a s j : Nat) (st : SState) (h : RegInv k) (hj : j < k.impls.length) :
+    RegInv (k.setActor a (fun x => x.setSlot s j st)) := by
+  refine RegInv.flags h a _ rfl rfl rfl rfl rfl ?_ (h.pidx a) (h.rank a) (fun hw hid => h.idle a hw hid)
+  intro i hi
+  rcases mem_setSlot _ _ _ _ _ hi with hi | hi
+  · rw [hi]; exact hj
+  · exact h.slots a i hi
+
+theorem findMatch_lt (k : K) (q : Nat) (want : Kind) (j : Nat) (h : k.findMatch q want = some j) :
+    j < k.impls.length := by
+  unfold K.findMatch at h
+  exact List.mem_range.mp (List.mem_of_find?_eq_some h)
+
+theorem handle_reg_sleep (now : Rat) (k : K) (a : Nat) (d : Rat) (h : RegInv k) (hp : HPre k a) :
+    RegInv (k.handle now a (.sleep d)) := by
+  simp only [K.handle]
+  have h1 := newImpl_reg k { kind := .sleep, st := .running, act := .started, start := now } h rfl
+  apply register_reg
+  · exact h1.same (rsame_of _ _ rfl rfl rfl rfl)
+  · simp [K.newImpl]
+  · exact hp.va
+  · exact hp.idle
+  · intro t ht hc; exact absurd hc (hp.nt h t ht)
+  · left
+    have : (k.actor a).waiting = [] := hp.wait
+    show ((k.actor a).waiting ++ [_]).length ≤ 1
+    rw [this]; simp
+
+theorem handle_reg_start (now : Rat) (k : K) (a slot : Nat) (kind : Kind) (d : Rat) (h : RegInv k) (hp : HPre k a) :
+    RegInv (k.handle now a (.start slot kind d)) := by
+  simp only [K.handle]
+  have h1 := newImpl_reg k { kind := kind, st := .running, act := .started, start := now,
+                              owners := if kind == .comm then [] else [a] } h rfl
+  apply answer_reg
+  · apply setSlot_reg
+    · exact h1.same (rsame_of _ _ rfl rfl rfl rfl)
+    · simp [K.newImpl]
+  · intro _
+    have e : ∀ {β} (g : Actor → β) (hg : ∀ x s j st, g (x.setSlot s j st) = g x) (k0 : K) (s j : Nat) (st : SState),
+        g ((k0.setActor a fun x => x.setSlot s j st).actor a) = g (k0.actor a) := by
+      intro β g hg k0 s j st
+      exact actor_setActor_proj g _ a a _ (by intro x; exact hg x _ _ _)
+    rw [e (·.waiting) (by intro _ _ _ _; rfl), e (·.tcb) (by intro _ _ _ _; rfl)]
+    exact ⟨hp.wait, hp.tcb⟩
+
+theorem slot_answer_reg (k : K) (a s j : Nat) (st : SState) (h : RegInv k) (hj : j < k.impls.length)
+    (hc : (k.actor a).waiting = [] ∧ (k.actor a).tcb = none) :
+    RegInv ((k.setActor a (fun x => x.setSlot s j st)).answer a) := by
+  apply answer_reg
+  · exact setSlot_reg k a s j st h hj
+  · intro _
+    have e : ∀ {β} (g : Actor → β) (hg : ∀ x s j st, g (x.setSlot s j st) = g x),
+        g ((k.setActor a fun x => x.setSlot s j st).actor a) = g (k.actor a) := by
+      intro β g hg
+      exact actor_setActor_proj g _ a a _ (by intro x; exact hg x _ _ _)
+    rw [e (·.waiting) (by intro _ _ _ _; rfl), e (·.tcb) (by intro _ _ _ _; rfl)]
+    exact hc
+
+theorem handle_reg_mess (now : Rat) (k : K) (a slot q : Nat) (want mine : Kind) (h : RegInv k) (hp : HPre k a) :
+    RegInv (match k.findMatch q want with
+      | some j =>
+        let k := k.setImpl j (fun x => { x with st := .running, owners := x.owners ++ [a] })
+        let k := k.finish j
+        (k.setActor a (fun x => x.setSlot slot j .started)).answer a
+      | none =>
+        let (k, i) := k.newImpl { kind := mine, st := .waiting, queue := q, owners := [a] }
+        (k.setActor a (fun x => x.setSlot slot i .started)).answer a) := by
+  split
+  · rename_i j hj
+    simp only []
+    have hjl := findMatch_lt k q want j hj
+    have h1 : RegInv (k.setImpl j fun x => { x with st := .running, owners := x.owners ++ [a] }) :=
+      h.same (rsame_setImpl _ _ _ (by intro _; rfl))
+    have h2 := finish_reg _ j h1
+    have s : Shr k ((k.setImpl j fun x => { x with st := .running, owners := x.owners ++ [a] }).finish j) :=
+      (shr_setImpl k j _ (by intro _; rfl)).trans (shr_finish _ j)
+    apply slot_answer_reg _ _ _ _ _ h2
+    · rw [s.nimpl]; exact hjl
+    · exact hp.shr h h2 s
+  · simp only []
+    have h1 := newImpl_reg k { kind := mine, st := .waiting, queue := q, owners := [a] } h rfl
+    apply slot_answer_reg _ _ _ _ _ h1
+    · simp [K.newImpl]
+    · exact ⟨hp.wait, hp.tcb⟩
+
+theorem handle_reg_test (now : Rat) (k : K) (a i : Nat) (h : RegInv k) (hp : HPre k a) :
+    RegInv (k.handle now a (.test i)) := by
+  simp only [K.handle]
+  apply answer_reg
+  · split
+    · have h2 := finish_reg k i h
+      exact RegInv.flags h2 a _ rfl rfl rfl rfl rfl (h2.slots a) (h2.pidx a)
+        (by intro hr; simp [Actor.ar] at hr) (fun hw hid => h2.idle a hw hid)
+    · exact RegInv.flags h a _ rfl rfl rfl rfl rfl (h.slots a) (h.pidx a)
+        (by intro hr; simp [Actor.ar] at hr) (fun hw hid => h.idle a hw hid)
+  · intro _
+    split
+    · have h2 := finish_reg k i h
+      have := hp.shr h h2 (shr_finish k i)
+      have e : ∀ {β} (g : Actor → β) (hg : ∀ x r, g { x with res := r } = g x),
+          g (((k.finish i).setActor a fun x => { x with res := Res.tested true }).actor a) =
+          g ((k.finish i).actor a) := by
+        intro β g hg
+        exact actor_setActor_proj g _ a a _ (by intro x; exact hg x _)
+      rw [e (·.waiting) (by intro _ _; rfl), e (·.tcb) (by intro _ _; rfl)]
+      exact this
+    · have e : ∀ {β} (g : Actor → β) (hg : ∀ x r, g { x with res := r } = g x),
+          g ((k.setActor a fun x => { x with res := Res.tested false }).actor a) = g (k.actor a) := by
+        intro β g hg
+        exact actor_setActor_proj g _ a a _ (by intro x; exact hg x _)
+      rw [e (·.waiting) (by intro _ _; rfl), e (·.tcb) (by intro _ _; rfl)]
+      exact ⟨hp.wait, hp.tcb⟩
+
+theorem handle_reg_cancel (now : Rat) (k : K) (a i : Nat) (h : RegInv k) (hp : HPre k a) :
+    RegInv (k.handle now a (.cancel i)) := by
+  simp only [K.handle]
+  apply answer_reg
+  · exact h.same (rsame_cancel k i)
+  · intro _
+    have h2 := congrFun (rsame_cancel k i).ar a
+    have e1 : ((k.cancel i).actor a).waiting = (k.actor a).waiting := congrArg AR.waiting h2
+    have e2 : ((k.cancel i).actor a).tcb = (k.actor a).tcb := congrArg AR.tcb h2
+    rw [e1, e2]; exact ⟨hp.wait, hp.tcb⟩
+
+theorem handle_reg_killAt (now : Rat) (k : K) (a : Nat) (t : Rat) (h : RegInv k) (hp : HPre k a) :
+    RegInv (k.handle now a (.killAt t)) := by
+  simp only [K.handle]
+  split
+  · exact answer_reg k a h (fun _ => ⟨hp.wait, hp.tcb⟩)
+  · apply answer_reg
+    · exact RegInv.mk' _ (RegInvF.addKill h a a t) rfl
+        (by rw [arF_setActor _ _ _ (by simpa [K.timerSet] using hp.va)]; rfl) rfl rfl rfl
+    · intro _
+      have e : ∀ {β} (g : Actor → β) (hg : ∀ x r, g { x with ktimer := r } = g x),
+          g (((k.timerSet t (Cb.kill a)).1.setActor a fun x => { x with ktimer := some (k.timerSet t (Cb.kill a)).2 }).actor a)
+            = g (k.actor a) := by
+        intro β g hg
+        exact actor_setActor_proj g _ a a _ (by intro x; exact hg x _)
+      rw [e (·.waiting) (by intro _ _; rfl), e (·.tcb) (by intro _ _; rfl)]
+      exact ⟨hp.wait, hp.tcb⟩
+
+theorem arF_register (k : K) (i a : Nat) (ha : a < k.actors.length) :
+    (k.register i a).arF = updF k.arF a { k.arF a with waiting := (k.arF a).waiting ++ [i] } := by
+  unfold K.register
+  rw [arF_setActor _ _ _ (by simpa using ha)]; rfl
+
+theorem handle_reg_waitFor (now : Rat) (k : K) (a i : Nat) (tau : Rat) (h : RegInv k) (hp : HPre k a)
+    (hi : i < k.impls.length) : RegInv (k.handle now a (.waitFor i tau)) := by
+  simp only [K.handle]
+  have hw : (k.arF a).waiting = [] := hp.wait
+  have h1 : RegInv (k.register i a) := by
+    apply register_reg k i a h hi hp.va hp.idle
+    · intro t ht hc; exact absurd hc (hp.nt h t ht)
+    · left; show ((k.arF a).waiting ++ [i]).length ≤ 1; rw [hw]; simp
+  have har := arF_register k i a hp.va
+  split
+  · exact finish_reg _ i h1
+  · split
+    · refine RegInv.mk' _ (RegInvF.addTimer h1 a (now + tau) (.wto a i) rfl ?_ ?_ ?_) rfl
+        (by rw [arF_setActor _ _ _ (by simpa [K.timerSet, K.register] using hp.va)]; rfl) rfl rfl rfl
+      · rw [har]; simp only [updF_same]; exact hp.tcb
+      · rw [har]; simp only [updF_same]; exact hp.idle
+      · unfold TLinkF
+        simp only [updF_same]
+        refine ⟨trivial, fun _ => ?_⟩
+        rw [har]; simp only [updF_same, hw]; rfl
+    · exact h1
+
+theorem go_reg (a : Nat) (l : List Nat) (k : K) (h : RegInv k) (va : a < k.actors.length)
+    (hidle : (k.actor a).idle = false)
+    (hbound : ∀ j, (k.arF a).waiting.count j + l.count j ≤ (k.arF a).anyList.count j)
+    (honly : ∀ t ∈ k.timers, cbActor t.cb = some a → ∃ is, t.cb = .wany a is)
+    (hidx : ∀ i ∈ l, i < k.impls.length) : RegInv (K.handle.go a k l) := by
+  induction l generalizing k with
+  | nil => unfold K.handle.go; exact h
+  | cons i rest ih =>
+    unfold K.handle.go
+    simp only []
+    have hb' : ∀ j, ((k.arF a).waiting ++ [i]).count j ≤ (k.arF a).anyList.count j := by
+      intro j
+      have := hbound j
+      rw [List.count_cons] at this
+      rw [List.count_append, List.count_singleton]
+      omega
+    have h1 : RegInv (k.register i a) := by
+      apply register_reg k i a h (hidx i (by simp)) va hidle
+      · intro t ht hc
+        obtain ⟨is, his⟩ := honly t ht hc
+        have := h.tlink t ht
+        unfold TLinkF at this ⊢
+        simp only [his] at this ⊢
+        simp only [updF_same]
+        refine ⟨this.1, fun hwd => ?_⟩
+        obtain ⟨e1, _⟩ := this.2 hwd
+        refine ⟨e1, fun j => ?_⟩
+        rw [← e1]; exact hb' j
+      · right; exact hb'
+    split
+    · exact finish_reg _ i h1
+    · have har := arF_register k i a va
+      apply ih _ h1
+      · simpa [K.register] using va
+      · have : ((k.register i a).actor a).idle = (k.actor a).idle := by
+          unfold K.register
+          exact actor_setActor_proj (·.idle) _ a a _ (by intro _; rfl)
+        rw [this]; exact hidle
+      · intro j
+        rw [har]; simp only [updF_same]
+        have := hbound j
+        rw [List.count_cons] at this
+        rw [List.count_append, List.count_singleton]
+        omega
+      · exact honly
+      · intro j hj
+        have : (k.register i a).impls.length = k.impls.length := by simp [K.register]
+        rw [this]; exact hidx j (by simp [hj])
+
+theorem setAny_reg (k : K) (a : Nat) (is : List Nat) (h : RegInv k) (hp : HPre k a) :
+    RegInv (k.setActor a fun x => { x with anyList := is }) := by
+  have hnt := hp.nt h
+  refine RegInv.mk' _ (RegInvF.upd h a ({ k.actor a with anyList := is } : Actor).ar k.simF
+    ?_ ?_ ?_ ?_ ?_ (h.klink a) (h.slots a) (h.pidx a) (h.rank a)) rfl (arF_setActor _ _ _ hp.va) rfl rfl rfl
+  · intro b j hb
+    by_cases hba : b = a
+    · subst hba; simp only [updF_same] at hb ⊢; exact h.cnt b j hb
+    · rw [updF_ne _ _ _ _ hba] at hb ⊢; exact h.cnt b j hb
+  · exact h.idle a
+  · intro _; left
+    show (k.actor a).waiting.length ≤ 1
+    rw [hp.wait]; simp
+  · intro t ht hc; exact absurd hc (hnt t ht)
+  · exact h.rev a
+
+theorem handle_reg_waitAny (now : Rat) (k : K) (a : Nat) (is : List Nat) (tau : Rat) (h : RegInv k) (hp : HPre k a)
+    (hidx : ∀ i ∈ is, i < k.impls.length) : RegInv (k.handle now a (.waitAny is tau)) := by
+  simp only [K.handle]
+  have h1 := setAny_reg k a is h hp
+  have e1 : (k.setActor a fun x => { x with anyList := is }).actor a = { k.actor a with anyList := is } :=
+    actor_setActor_same _ _ _ hp.va
+  have hp1 : HPre (k.setActor a fun x => { x with anyList := is }) a :=
+    ⟨by simpa using hp.va, by rw [e1]; exact hp.blocked, by rw [e1]; exact hp.pend, by rw [e1]; exact hp.wd,
+     by rw [e1]; exact hp.wait, by rw [e1]; exact hp.tcb⟩
+  generalize hk1 : (k.setActor a fun x => { x with anyList := is }) = k1 at *
+  have han : (k1.actor a).anyList = is := by rw [e1]
+  have hlen1 : k1.impls.length = k.impls.length := by rw [← hk1]; simp
+  split
+  · -- no timeout
+    have h2 : RegInv (k1.setActor a fun x => { x with tcb := none }) :=
+      RegInv.flags h1 a _ rfl (by show none = (k1.actor a).tcb; rw [hp1.tcb]) rfl rfl rfl
+        (h1.slots a) (h1.pidx a) (h1.rank a) (fun hw hid => h1.idle a hw hid)
+    have e2 : (k1.setActor a fun x => { x with tcb := none }).actor a = { k1.actor a with tcb := none } :=
+      actor_setActor_same _ _ _ hp1.va
+    apply go_reg a is _ h2
+    · simpa using hp1.va
+    · rw [e2]; exact hp1.idle
+    · intro j
+      show ((k1.setActor a fun x => { x with tcb := none }).actor a).waiting.count j + _ ≤
+        ((k1.setActor a fun x => { x with tcb := none }).actor a).anyList.count j
+      rw [e2]; simp only [hp1.wait, han]; simp
+    · intro t ht hc
+      have hnt : NT (k1.setActor a fun x => { x with tcb := none }).timers a :=
+        NT_of_tcb_none h2 a (by show ((k1.setActor a fun x => { x with tcb := none }).actor a).tcb = none; rw [e2])
+      exact absurd hc (hnt t ht)
+    · intro i hi; simp only [setActor_impls]; rw [hlen1]; exact hidx i hi
+  · -- timeout timer set first
+    have h2 : RegInv ((k1.timerSet (now + tau) (.wany a is)).1.setActor a
+        fun x => { x with tcb := some (k1.timerSet (now + tau) (.wany a is)).2 }) := by
+      refine RegInv.mk' _ (RegInvF.addTimer h1 a (now + tau) (.wany a is) rfl ?_ ?_ ?_) rfl
+        (by rw [arF_setActor _ _ _ (by simpa [K.timerSet] using hp1.va)]; rfl) rfl rfl rfl
+      · exact hp1.tcb
+      · exact hp1.idle
+      · unfold TLinkF
+        simp only [updF_same]
+        refine ⟨trivial, fun _ => ⟨han, fun j => ?_⟩⟩
+        show (k1.actor a).waiting.count j ≤ _
+        rw [hp1.wait]; simp
+    have e2 : ((k1.timerSet (now + tau) (.wany a is)).1.setActor a
+        fun x => { x with tcb := some (k1.timerSet (now + tau) (.wany a is)).2 }).actor a =
+        { k1.actor a with tcb := some k1.nextT } :=
+      actor_setActor_same _ _ _ (by simpa [K.timerSet] using hp1.va)
+    apply go_reg a is _ h2
+    · simpa [K.timerSet] using hp1.va
+    · rw [e2]; exact hp1.idle
+    · intro j
+      show (((k1.timerSet (now + tau) (.wany a is)).1.setActor a
+        fun x => { x with tcb := some (k1.timerSet (now + tau) (.wany a is)).2 }).actor a).waiting.count j + _ ≤
+        (((k1.timerSet (now + tau) (.wany a is)).1.setActor a
+        fun x => { x with tcb := some (k1.timerSet (now + tau) (.wany a is)).2 }).actor a).anyList.count j
+      rw [e2]; simp only [hp1.wait, han]; simp
+    · intro t ht hc
+      simp only [K.timerSet, setActor_timers, List.mem_append, List.mem_singleton] at ht
+      rcases ht with ht | ht
+      · exact absurd hc (hp1.nt h1 t ht)
+      · exact ⟨is, by rw [ht]⟩
+    · intro i hi
+      simp only [setActor_impls, K.timerSet]; rw [hlen1]; exact hidx i hi
+
+theorem handle_reg (now : Rat) (k : K) (a : Nat) (r : Req) (h : RegInv k) (hp : HPre k a)
+    (hidx : ∀ i ∈ r.idx, i < k.impls.length) : RegInv (k.handle now a r) := by
+  cases r with
+  | sleep d => exact handle_reg_sleep now k a d h hp
+  | start slot kind d => exact handle_reg_start now k a slot kind d h hp
+  | iget slot q => simp only [K.handle]; exact handle_reg_mess now k a slot q .mput .mget h hp
+  | iput slot q => simp only [K.handle]; exact handle_reg_mess now k a slot q .mget .mput h hp
+  | waitFor i tau => exact handle_reg_waitFor now k a i tau h hp (hidx i (by simp [Req.idx]))
+  | waitAny is tau => exact handle_reg_waitAny now k a is tau h hp (by simpa [Req.idx] using hidx)
+  | test i => exact handle_reg_test now k a i h hp
+  | cancel i => exact handle_reg_cancel now k a i h hp
+  | killAt t => exact handle_reg_killAt now k a t h hp
 
 end SgVerif.TimeCore
